@@ -10,7 +10,7 @@ From HP Require Import Base.Bytes Base.Utf8 Base.Num Model.Scanner Model.Parser 
   Model.Dates Model.Tree Model.Writer Model.Reporters Model.Cli
   Spec.TreeShared Spec.Agree2Spec
   Proofs.AgreeMiscBase Proofs.AgreeMiscQty Proofs.AgreeMiscBal Proofs.AgreeMiscElem Proofs.AgreeMiscSum
-  Proofs.AgreeMiscStats Proofs.AgreeMiscWalk Proofs.AgreeMiscProgram Proofs.AgreeMiscFloat.
+  Proofs.AgreeMiscStats Proofs.AgreeMiscWalk Proofs.AgreeMiscProgram Proofs.AgreeMiscFloat Proofs.AgreeMiscBook.
 From HP Require Import Base.GoFloat.
 From Coq Require Import Floats.SpecFloat.
 From Coq Require Import Permutation Sorted.
@@ -135,6 +135,12 @@ Theorem element_total_eq_resolved_csv : forall (NM : Num) π (d : list (bytes * 
   /\ Permutation (sort_by_value NM desc (element_total_list NM π d x)) (element_total_list NM π d x).
 Proof. exact AgreeMiscElem.element_total_eq_resolved_csv. Qed.
 Print Assumptions element_total_eq_resolved_csv.
+
+(** the hypothesis [NoDup (keys d)] holds of every book the commands resolve *)
+Theorem resolved_db_NoDup : forall (NM : Num) (w : world) (op : options) o d,
+  resolved_db NM w op o = inr d -> NoDup (keys d).
+Proof. exact AgreeMiscBook.resolved_db_NoDup. Qed.
+Print Assumptions resolved_db_NoDup.
 
 (** [resolved_csv_rows] / [element_total_list] are what the two commands write *)
 Theorem run_csv_db_resolved_rows : forall (NM : Num) (w : world) (op : options) odb d,
